@@ -58,11 +58,12 @@ Section Frag.
     | PBind p _ MImmediate => lookup_none (w_props w) p || (PropGrowAct2.unbound_b w p && PropGrowAct2.nab_b w p) || PropGrowAct2.bound_b w p
     | PReset _ => true
     | PMoveCtor _ _ => true
+    | PDel p => PropGrowMore.no_reader_b w p
     | _ => act2_opb w o
     end.
   Lemma grow_act_opb_sound w o : grow_act_opb w o = true -> PropGrowAct2.grow_act2_op w o.
   Proof.
-    destruct o; cbn [grow_act_opb PropGrowAct2.grow_act2_op]; try (apply act2_opb_sound); try (intros; exact I).
+    destruct o; cbn [grow_act_opb PropGrowAct2.grow_act2_op]; try (apply act2_opb_sound); try (intros; exact I); try (intros H; exact H).
     destruct m; [|apply act2_opb_sound]. intros H. apply orb_true_iff in H. destruct H as [H|H]; [apply orb_true_iff in H; destruct H as [H|H]|].
     - left. unfold lookup_none in H. destruct (lookup (w_props w) p); [discriminate|reflexivity].
     - right. left. apply andb_true_iff in H. exact H.
